@@ -231,7 +231,7 @@ func (g *gen) numericStatements() {
 				for _, f2 := range stmtForms {
 					s1 := strings.ReplaceAll(f1.text, "K", "1")
 					s2 := strings.ReplaceAll(f2.text, "K", "2")
-					body := fmt.Sprintf("var x %s = %s\nvar y %s = 3\n%s\n%s\n", t, v, t, s1, s2) + show("x")
+					body := fmt.Sprintf("var x %s = %s\nvar y %s = 3\n%s\n%s\n", t, v, t, s1, s2) + show("x", "y")
 					g.add("pair:"+f1.name+";"+f2.name, t, "v="+v, "", body)
 				}
 			}
